@@ -13,7 +13,9 @@ NAMES = ['A', 'B', 'PREY', 'NONE', 'A', 'add_tag', 'get_tag_name', 'itemize', '_
          '__len__', '__class__', '__dict__', '__init__', 'x y', '', '0', 'None', 'self', 'tag_name', 'é',
          # names bound at module level in Tags.py: on the global library `Tags.<name>` finds the module global first
          'TagLibrary', '_module_library', '__file__', 'deprecated', 'DuplicateTagError', 'List', '__getattr__',
-         '_internal', '__private']
+         '_internal', '__private',
+         # builtins that Tags.py itself calls: a tag of that name must not get in their way
+         'enumerate', 'hasattr', 'type', 'super', 'len', 'range', 'globals', '__sheep__']
 
 
 def run_history(hist, props=None):
